@@ -968,6 +968,29 @@ def gen_whole_line(cases, r, reps):
                 add_program(cases, r, 'whole-line', ents, start=start, p_trail=0.5, p_noise=0.2, p_split=0.1)
 
 
+# a faulty header expression whose TEXT also occurs earlier in the same line (the keyword's last letter, the loop variable ...): the
+# column must be the position of the offending character in the line, not the position of the first look-alike
+REPEATED = [          # (the reported column is that of the first character the expression parser could not consume: the blank after the operand)
+    [['while e e:', ('xfault', 'while', M_SYNTAX, 8)]],
+    [['while le le:', ('xfault', 'while', M_SYNTAX, 9)]],
+    [['if f f:', ('xfault', 'if', M_SYNTAX, 5)]],
+    [['if f f f:', ('xfault', 'if', M_SYNTAX, 5)]],
+    [['if va:', ('open', 'if')], ['elif f f:', ('xfault', 'elif', M_SYNTAX, 7)]],
+    [['for a in a i:', ('xfault', 'for', M_SYNTAX, 11)]],
+    [['for v in n n:', ('xfault', 'for', M_SYNTAX, 11)]],
+    [['for r in r r:', ('xfault', 'for', M_SYNTAX, 11)]],
+    [['x = x x', ('xfault', 'assign', M_SYNTAX, 6)]],
+    [['return n n', ('xfault', 'return', M_SYNTAX, 9)]],
+]
+
+
+def gen_repeated_text(cases, r):
+    for tpl in REPEATED:
+        for start in STARTS[:2]:
+            pre = [[f'v{j} = {j}', ('plain',)] for j in range(r.randint(0, 2))]
+            add_program(cases, r, 'repeated-text', pre + [list(e) for e in tpl], start=start)
+
+
 def gen_valid_and_mutants(cases, r, n_valid, n_mut):
     for _ in range(n_valid):
         add_program(cases, r, 'valid', base_entries(r), p_split=r.choice([0, 0, 0.2, 0.6]), p_noise=r.choice([0, 0.2]),
@@ -1188,6 +1211,7 @@ def build_cases(r, tier):
     corpus_cases(cases)
     gen_open_blocks(cases, r, 3 if tier == 'quick' else 12)
     gen_whole_line(cases, r, 2 if tier == 'quick' else 12)
+    gen_repeated_text(cases, r)
     gen_dangling(cases, r, 400 * m)
     gen_nesting(cases, r, tier)
     gen_columns(cases, r, tier)
